@@ -1,5 +1,6 @@
 import Proofs.Blockwise.C06Server
 import Proofs.Blockwise.C06History
+import Proofs.Blockwise.C06Lifetime
 /-!
 # C06 — block-wise server: handlers see only complete bodies, blocks are exact slices
 
@@ -15,13 +16,6 @@ namespace Aiocoap.BwServer
 open TD
 
 -- Block1: intermediate blocks ---------------------------------------------------------------
-
-/-- a Block1 block is *accepted* when it starts an assembly (number 0) or continues the one
-stored under its block key exactly where that ends, with a payload that fits its size -/
-def Accepted (T : Nat) (st : RState) (i : In) (b : Blk) : Prop :=
-  b.num = 0 ∨ ∃ asm, alookup (blockKey i.req) (spoolAt T st i).items = some asm ∧
-    isRequestCode asm.code = true ∧ sizeOk b i.req.payload.length = true ∧
-    b.start = asm.payload.length
 
 /-- **C06 (intermediate blocks).** An accepted block with the more flag is answered 2.31 Continue
 echoing exactly its Block1 option, with no payload; the handler is not invoked and the rendering
@@ -359,5 +353,253 @@ theorem C06_lifetime {κ ν : Type} [DecidableEq κ] (T : Nat) (hT : 0 < T)
   simp only [TD.runOps]
   obtain ⟨ha, hd⟩ := TD.lifetime_aux rest hinv hc hne t' hle ht'
   exact ⟨fun h => ha (by omega), fun h => hd (by omega)⟩
+
+/-- **C06 (reassembly state: kept ≥ T, dropped within 2T).**  In every time-ordered history from
+the empty state: after a Block1 block was accepted at time `t` (`cur`), and whatever requests under
+*other* block keys follow (`rest`: any endpoints, resources' worth of interleaving, any timing), the
+assembly stored under `cur`'s block key is, as the timers up to `t'` have run,
+* at every `t' < t + T` still there and unchanged (so an in-order continuation is accepted and
+  extends exactly it), and
+* at every `t' ≥ t + 2T` gone.
+`T` is the spool's `MAX_TRANSMIT_WAIT` timeout. -/
+theorem C06_assembly_lifetime (T : Nat) (hT : 0 < T) (pre : List In) (cur : In) (b : Blk)
+    (rest : List In) (hord : TimeOrdered 0 (pre ++ cur :: rest))
+    (ha : cur.assemble = true) (hb : cur.req.block1 = some b)
+    (hacc : Accepted T (stateAfter T RState.init pre) cur b)
+    (hne : ∀ i ∈ rest, i.assemble = true → blockKey i.req ≠ blockKey cur.req)
+    (t' : Nat) (hle : ∀ i ∈ rest, i.now ≤ t') (ht' : cur.now ≤ t') :
+    (t' < cur.now + T →
+      ∃ asm, alookup (blockKey cur.req)
+               (step T (stateAfter T RState.init pre) cur).1.spool.items = some asm ∧
+             alookup (blockKey cur.req)
+               ((stateAfter T RState.init (pre ++ cur :: rest)).spool.advance T t').items = some asm) ∧
+    (cur.now + 2 * T ≤ t' →
+      alookup (blockKey cur.req)
+        ((stateAfter T RState.init (pre ++ cur :: rest)).spool.advance T t').items = none) := by
+  obtain ⟨o1, o2, o3, o4⟩ := timeOrdered_append hord
+  have hr : RInv T cur.now (stateAfter T RState.init pre) :=
+    stateAfter_rinv pre (rinv_init T 0) o1 cur.now o2 (Nat.zero_le _)
+  obtain ⟨D, asm, h1, h2, hinv, hl⟩ := accepted_linv hT hr cur (Nat.le_refl _) ha hb hacc
+  have hst : stateAfter T RState.init (pre ++ cur :: rest) =
+      stateAfter T (step T (stateAfter T RState.init pre) cur).1 rest := by
+    rw [stateAfter_append]; rfl
+  rw [hst]
+  obtain ⟨p1, p2⟩ := spool_lifetime_aux rest hinv o4 hne t' hle ht'
+  constructor
+  · intro hlt
+    have hp := p1 (by omega)
+    simp only [TD.present] at hp
+    cases hv : alookup (blockKey cur.req)
+        ((stateAfter T (step T (stateAfter T RState.init pre) cur).1 rest).spool.advance T t').items with
+    | none => rw [hv] at hp; cases hp
+    | some v =>
+      have hback := (lookup_back (T := T) (k := blockKey cur.req) rest
+        (step_rinv hr cur (Nat.le_refl _)) o4 hne t').1 v hv
+      rw [hl] at hback
+      simp only [Option.some.injEq] at hback
+      subst hback
+      exact ⟨asm, hl, rfl⟩
+  · intro hge
+    have hp := p2 (by omega)
+    simp only [TD.present] at hp
+    cases hv : alookup (blockKey cur.req)
+        ((stateAfter T (step T (stateAfter T RState.init pre) cur).1 rest).spool.advance T t').items with
+    | none => rfl
+    | some v => rw [hv] at hp; cases hp
+
+/-- **C06 (expired transfer → 4.08).** … hence a continuation arriving `2T` or more after the last
+accepted block of its block key (nothing else having used that key) is answered 4.08 and does not
+reach the handler. -/
+theorem C06_expired_continuation_4_08 (T : Nat) (hT : 0 < T) (pre : List In) (cur : In) (b : Blk)
+    (rest : List In) (nxt : In) (b' : Blk)
+    (hord : TimeOrdered 0 (pre ++ cur :: rest))
+    (ha : cur.assemble = true) (hb : cur.req.block1 = some b)
+    (hacc : Accepted T (stateAfter T RState.init pre) cur b)
+    (hne : ∀ i ∈ rest, i.assemble = true → blockKey i.req ≠ blockKey cur.req)
+    (hle : ∀ i ∈ rest, i.now ≤ nxt.now) (hlate : cur.now + 2 * T ≤ nxt.now)
+    (ha' : nxt.assemble = true) (hk : blockKey nxt.req = blockKey cur.req)
+    (hb' : nxt.req.block1 = some b') (h0 : b'.num ≠ 0) :
+    (step T (stateAfter T RState.init (pre ++ cur :: rest)) nxt).2.resp
+      = errResp REQUEST_ENTITY_INCOMPLETE none ∧
+    (step T (stateAfter T RState.init (pre ++ cur :: rest)) nxt).2.seen = none := by
+  have hgone := (C06_assembly_lifetime T hT pre cur b rest hord ha hb hacc hne nxt.now hle
+    (by omega)).2 hlate
+  have := C06_bad_continuation_4_08 T (stateAfter T RState.init (pre ++ cur :: rest)) nxt b' ha' hb' h0
+    (Or.inl (by rw [hk]; exact hgone))
+  exact ⟨this.1, this.2.1⟩
+
+/-- **C06 (rendering state: kept ≥ T, dropped within 2T).**  Likewise for the rendering cache: after
+a request was answered in blocks from representation `a` at time `t` (the first block of a fresh
+rendering, or a later block of the kept one), and whatever requests under other block keys follow,
+`a` is still kept under the block key at every `t' < t + T` and nothing is kept at any
+`t' ≥ t + 2T`. -/
+theorem C06_rendering_lifetime (T : Nat) (hT : 0 < T) (pre : List In) (cur : In) (m : Msg) (a : Resp)
+    (rest : List In) (hord : TimeOrdered 0 (pre ++ cur :: rest))
+    (hp : Passes T (stateAfter T RState.init pre) cur m)
+    (hsrc : Source T (stateAfter T RState.init pre) cur m a)
+    (hchunk : needsChunking m a.payload.length = true)
+    (hne : ∀ i ∈ rest, i.assemble = true → blockKey i.req ≠ blockKey m)
+    (t' : Nat) (hle : ∀ i ∈ rest, i.now ≤ t') (ht' : cur.now ≤ t') :
+    (t' < cur.now + T →
+      alookup (blockKey m)
+        ((stateAfter T RState.init (pre ++ cur :: rest)).cache.advance T t').items = some a) ∧
+    (cur.now + 2 * T ≤ t' →
+      alookup (blockKey m)
+        ((stateAfter T RState.init (pre ++ cur :: rest)).cache.advance T t').items = none) := by
+  obtain ⟨o1, o2, o3, o4⟩ := timeOrdered_append hord
+  have hr : RInv T cur.now (stateAfter T RState.init pre) :=
+    stateAfter_rinv pre (rinv_init T 0) o1 cur.now o2 (Nat.zero_le _)
+  obtain ⟨D, h1, h2, hinv, hl⟩ := served_linv hT hr cur (Nat.le_refl _) hp hsrc hchunk
+  have hst : stateAfter T RState.init (pre ++ cur :: rest) =
+      stateAfter T (step T (stateAfter T RState.init pre) cur).1 rest := by
+    rw [stateAfter_append]; rfl
+  rw [hst]
+  have hr' := step_rinv hr cur (Nat.le_refl _)
+  obtain ⟨p1, p2⟩ := cache_lifetime_aux rest hinv hr'.hist o4 hne t' hle ht'
+  constructor
+  · intro hlt
+    have hpres := p1 (by omega)
+    simp only [TD.present] at hpres
+    cases hv : alookup (blockKey m)
+        ((stateAfter T (step T (stateAfter T RState.init pre) cur).1 rest).cache.advance T t').items with
+    | none => rw [hv] at hpres; cases hpres
+    | some v =>
+      have hback := (lookup_back (T := T) (k := blockKey m) rest hr' o4 hne t').2 v hv
+      rw [hl] at hback
+      simp only [Option.some.injEq] at hback
+      subst hback
+      rfl
+  · intro hge
+    have hpres := p2 (by omega)
+    simp only [TD.present] at hpres
+    cases hv : alookup (blockKey m)
+        ((stateAfter T (step T (stateAfter T RState.init pre) cur).1 rest).cache.advance T t').items with
+    | none => rfl
+    | some v => rw [hv] at hpres; cases hpres
+
+/-- … and a later block requested `2T` or more after the rendering was last used is answered 4.08 -/
+theorem C06_expired_rendering_4_08 (T : Nat) (hT : 0 < T) (pre : List In) (cur : In) (m : Msg) (a : Resp)
+    (rest : List In) (nxt : In) (m' : Msg) (b' : Blk)
+    (hord : TimeOrdered 0 (pre ++ cur :: rest))
+    (hp : Passes T (stateAfter T RState.init pre) cur m)
+    (hsrc : Source T (stateAfter T RState.init pre) cur m a)
+    (hchunk : needsChunking m a.payload.length = true)
+    (hne : ∀ i ∈ rest, i.assemble = true → blockKey i.req ≠ blockKey m)
+    (hle : ∀ i ∈ rest, i.now ≤ nxt.now) (hlate : cur.now + 2 * T ≤ nxt.now)
+    (hp' : Passes T (stateAfter T RState.init (pre ++ cur :: rest)) nxt m')
+    (hk : blockKey m' = blockKey m) (hb' : m'.block2 = some b') (h0 : b'.num ≠ 0) :
+    (step T (stateAfter T RState.init (pre ++ cur :: rest)) nxt).2.resp
+      = errResp REQUEST_ENTITY_INCOMPLETE none ∧
+    (step T (stateAfter T RState.init (pre ++ cur :: rest)) nxt).2.seen = none := by
+  have hgone := (C06_rendering_lifetime T hT pre cur m a rest hord hp hsrc hchunk hne nxt.now hle
+    (by omega)).2 hlate
+  have := C06_no_rendering_4_08 T (stateAfter T RState.init (pre ++ cur :: rest)) nxt m' b' hp' hb' h0
+    (by rw [hk]; exact hgone)
+  exact ⟨this.1, this.2.1⟩
+
+/-- **C06 (refinement step: per key, the blocks so far).** An accepted block leaves under its
+block key exactly: its own payload if its number is 0 (an earlier assembly of that key is silently
+discarded — restart), the stored body extended by its payload otherwise. -/
+theorem C06_accepted_block_extends_assembly (T : Nat) (st : RState) (cur : In) (b : Blk)
+    (ha : cur.assemble = true) (hb : cur.req.block1 = some b) (hacc : Accepted T st cur b) :
+    ∃ asm, alookup (blockKey cur.req) (step T st cur).1.spool.items = some asm ∧
+      ((b.num = 0 ∧ asm.payload = cur.req.payload) ∨
+       (b.num ≠ 0 ∧ ∃ old, alookup (blockKey cur.req) (spoolAt T st cur).items = some old ∧
+          asm.payload = old.payload ++ cur.req.payload)) := by
+  obtain ⟨asm, prev, hprev, hpay, hform⟩ := accepted_spool hb hacc
+  refine ⟨asm, ?_, ?_⟩
+  · rw [step_spool_eq]
+    simp only [ha, ↓reduceIte]
+    have hbase : alookup (blockKey cur.req)
+        (if b.num = 0 then (spoolAt T st cur).set T cur.now (blockKey cur.req) asm
+         else ((spoolAt T st cur).accessed T cur.now (blockKey cur.req)).mutate (blockKey cur.req) asm).items
+        = some asm := by
+      by_cases h0 : b.num = 0
+      · simp [h0, TD.set, accessed_items, alookup_ainsert_self]
+      · rcases hprev with ⟨e, _⟩ | ⟨_, old, hl, _⟩
+        · exact absurd e h0
+        · have hl' : alookup (blockKey cur.req)
+              ((spoolAt T st cur).accessed T cur.now (blockKey cur.req)).items = some old := by
+            rw [accessed_items]; exact hl
+          simp [h0, TD.mutate, hl', alookup_ainsert_self]
+    rcases hform with e | e
+    · rw [e]; exact hbase
+    · rw [e, accessed_items]; exact hbase
+  · rcases hprev with ⟨h0, e⟩ | ⟨h0, old, hl, e⟩
+    · exact Or.inl ⟨h0, by rw [hpay, e]; rfl⟩
+    · exact Or.inr ⟨h0, old, hl, by rw [hpay, e]⟩
+
+-- non-vacuity and sanity ---------------------------------------------------------------------------
+
+section examples
+
+private def epA : Remote := { key := 1, maxPayload := 1124, maxSzx := 6 }
+private def epB : Remote := { key := 2, maxPayload := 1124, maxSzx := 6 }
+private def ok (body : Bytes) : Msg → Resp :=
+  fun _ => { code := 69, opts := [(12, [42])], block1 := none, block2 := none, payload := body }
+private def put (r : Remote) (b1 : Option Blk) (b2 : Option Blk) (pl : Bytes) : Msg :=
+  { remote := r, code := 3, opts := [(11, [97])], block1 := b1, block2 := b2, payload := pl }
+private def rq (now : Nat) (m : Msg) (h : Msg → Resp) : In :=
+  { now := now, assemble := true, req := m, render := h }
+
+/-- two endpoints interleaved on one resource: A uploads 16+3 bytes, B's upload has a gap;
+then A fetches a 40-byte rendering in 16-byte blocks, asks beyond its end, and comes back
+after 2T -/
+private def exampleHistory : List In :=
+  [ rq 0 (put epA (some ⟨0, true, 0⟩) none (List.replicate 16 65)) (ok []),
+    rq 1 (put epB (some ⟨0, true, 0⟩) none (List.replicate 16 66)) (ok []),
+    rq 2 (put epA (some ⟨1, false, 0⟩) (some ⟨0, false, 0⟩) [1, 2, 3]) (ok (List.range 40)),
+    rq 3 (put epB (some ⟨2, true, 0⟩) none (List.replicate 16 66)) (ok []),
+    rq 4 (put epB (some ⟨1, true, 0⟩) none (List.replicate 15 66)) (ok []),
+    rq 5 (put epA none (some ⟨2, false, 0⟩) []) (ok [9]),
+    rq 6 (put epA none (some ⟨3, false, 0⟩) []) (ok [9]),
+    rq 7 (put epB none (some ⟨1, false, 0⟩) []) (ok [9]),
+    rq 30 (put epA none (some ⟨1, false, 0⟩) []) (ok [9]) ]
+
+/-- sanity: codes, Block1, Block2, payload length and the body the handler saw, with T = 10 -/
+example : (run 10 RState.init exampleHistory).map
+      (fun o => (o.resp.code, o.resp.block1, o.resp.block2, o.resp.payload.length,
+                 o.seen.map (·.payload.length))) =
+    [ (95, some ⟨0, true, 0⟩, none, 0, none),
+      (95, some ⟨0, true, 0⟩, none, 0, none),
+      (69, some ⟨1, false, 0⟩, some ⟨0, true, 0⟩, 16, some 19),
+      (136, none, none, 0, none),
+      (128, none, none, 0, none),
+      (69, none, some ⟨2, false, 0⟩, 8, none),
+      (128, none, none, 0, none),
+      (136, none, none, 0, none),
+      (136, none, none, 0, none) ] := by decide
+
+/-- the slice served for block 2 is bytes 32..39 of the rendering -/
+example : ((run 10 RState.init exampleHistory)[5]?).map (·.resp.payload) =
+    some [32, 33, 34, 35, 36, 37, 38, 39] := by decide
+
+/-- hypotheses of the theorems are met by this history: accepted blocks, a refused continuation
+with an existing assembly, a request passing to the second stage, a kept rendering as `Source` -/
+example : Accepted 10 RState.init (rq 0 (put epA (some ⟨0, true, 0⟩) none (List.replicate 16 65)) (ok []))
+    ⟨0, true, 0⟩ := Or.inl rfl
+example : ∃ asm, alookup (blockKey (put epA none none []))
+      (spoolAt 10 (stateAfter 10 RState.init (exampleHistory.take 2)) (exampleHistory[2]'(by decide))).items
+      = some asm ∧ isRequestCode asm.code = true ∧ (⟨1, false, 0⟩ : Blk).start = asm.payload.length :=
+  ⟨put epA (some ⟨0, true, 0⟩) none (List.replicate 16 65), by decide, by decide, by decide⟩
+example : TimeOrdered 0 exampleHistory := by simp [exampleHistory, TimeOrdered, rq]
+example : Passes 10 (stateAfter 10 RState.init (exampleHistory.take 5)) (exampleHistory[5]'(by decide))
+    (put epA none (some ⟨2, false, 0⟩) []) := ⟨rfl, by decide⟩
+example : Source 10 (stateAfter 10 RState.init (exampleHistory.take 5)) (exampleHistory[5]'(by decide))
+    (put epA none (some ⟨2, false, 0⟩) []) (ok (List.range 40) (put epA none none [])) :=
+  Or.inr ⟨by decide, by decide⟩
+example : latest (blockKey (put epA none none [])) (renderLog 10 RState.init (exampleHistory.take 5))
+    = some (ok (List.range 40) (put epA none none [])) := by decide
+
+/-- TimeoutDict: set at 0 with T = 10, other key accessed at 5; present at 9, absent at 20 -/
+example : ((TD.runOps 10 (TD.empty : TD Nat Nat) [(0, .set 1 7), (5, .set 2 8)]).advance 10 9).present 1
+    = true := by decide
+example : ((TD.runOps 10 (TD.empty : TD Nat Nat) [(0, .set 1 7), (5, .set 2 8)]).advance 10 20).present 1
+    = false := by decide
+/-- the bound 2T is tight in the model: accessed twice, the entry outlives T -/
+example : ((TD.runOps 10 (TD.empty : TD Nat Nat) [(0, .set 9 0), (9, .set 1 7)]).advance 10 19).present 1
+    = true := by decide
+
+end examples
 
 end Aiocoap.BwServer
